@@ -171,11 +171,18 @@ func xcEdges(cfg Config) {
 			}
 			trace = append(trace, rc.step(st))
 			vio.Emit(map[string]interface{}{"mismatch": true, "trace": trace, "idx": i, "what": what, "step": st, "h": e.H, "got": g, "proj": p,
-				"pred": e.Post, "predReq": er, "predLv": el, "router": u.chains[firstNonEmpty(st.S, st.C)].Router})
+				"pred": e.Post, "predReq": er, "predLv": el, "kind": u.kindOf(firstNonEmpty(st.S, st.C))})
 		}
 	})
 	vio.Emit(map[string]interface{}{"summary": true, "edges": len(edges), "distinct": len(distinct), "mismatches": nmis, "diverged": ndiv,
 		"chains": u.describe()})
+}
+
+func (u *Universe) kindOf(name string) string {
+	if c, ok := u.chains[name]; ok {
+		return string(c.kind)
+	}
+	return ""
 }
 
 func firstNonEmpty(a ...string) string {
@@ -190,7 +197,7 @@ func firstNonEmpty(a ...string) string {
 func (u *Universe) describe() map[string]interface{} {
 	m := map[string]interface{}{}
 	for n, c := range u.chains {
-		m[n] = map[string]interface{}{"id": c.ID, "router": c.Router}
+		m[n] = map[string]interface{}{"id": c.ID, "router": c.Router, "kind": string(c.kind)}
 	}
 	ids := map[string]string{}
 	for n, b := range u.ids {
